@@ -127,6 +127,8 @@ type scriptReader struct {
 	eofWith bool // return io.EOF together with the last bytes
 	failAt  int  // return failErr once this many bytes were delivered (-1: never)
 	failErr error
+	first   int // the first data read returns at most this many bytes (0: nothing special)
+	reads   int
 	pos     int
 }
 
@@ -145,9 +147,12 @@ func (r *scriptReader) Read(p []byte) (int, error) {
 		return 0, nil
 	}
 	n := len(p)
-	if r.chunk > 0 && n > r.chunk {
+	if r.reads == 0 && r.first > 0 {
+		n = min(n, r.first)
+	} else if r.chunk > 0 && n > r.chunk {
 		n = r.chunk
 	}
+	r.reads++
 	if n > len(r.data)-r.pos {
 		n = len(r.data) - r.pos
 	}
@@ -165,12 +170,12 @@ func (r *scriptReader) Read(p []byte) (int, error) {
 var errInjected = errors.New("injected read error")
 
 type readerSpec struct {
-	chunk, zeros, failAt int
-	eofWith              bool
+	chunk, zeros, failAt, first int
+	eofWith                     bool
 }
 
 func (s readerSpec) String() string {
-	return fmt.Sprintf("reader{chunk=%d zero-reads=%d eof-with-data=%v fail-at=%d}", s.chunk, s.zeros, s.eofWith, s.failAt)
+	return fmt.Sprintf("reader{first=%d chunk=%d zero-reads=%d eof-with-data=%v fail-at=%d}", s.first, s.chunk, s.zeros, s.eofWith, s.failAt)
 }
 
 func pickReader(rng *mon.RNG, n int) readerSpec {
@@ -188,6 +193,9 @@ func pickReader(rng *mon.RNG, n int) readerSpec {
 		s.chunk = rng.PickInt(0, 1, 64)
 	case 4:
 		s.failAt = rng.Intn(n + 1)
+	case 5: // a short first read, then every offered buffer is filled (or 512 / 511 bytes at a time)
+		s.first = rng.PickInt(1+rng.Intn(40), 15, 17, 511, 512, 513, 527)
+		s.chunk = rng.PickInt(0, 0, 512, 511)
 	}
 	if n > 100000 && s.chunk > 0 && s.chunk < 16 {
 		s.chunk = 512
@@ -246,7 +254,7 @@ func (c *cctx) decrypt(what string, doc []byte, rs readerSpec, unwrap int, keyNa
 	base := runtime.NumGoroutine()
 	fn := unwrapFn(unwrap, c.rng)
 	c.call("enc.Decrypt", kv("document", doc, "reader", rs.String(), "unwrap", unwrapNames[unwrap], "key_name", keyName, "file_key", encFileKey), func() error {
-		rd := &scriptReader{data: doc, chunk: rs.chunk, zeros: rs.zeros, eofWith: rs.eofWith, failAt: rs.failAt, failErr: errInjected}
+		rd := &scriptReader{data: doc, chunk: rs.chunk, zeros: rs.zeros, eofWith: rs.eofWith, failAt: rs.failAt, failErr: errInjected, first: rs.first}
 		out, err := v1.Decrypt(rd, v1.DecryptOptions{UnwrapKeyFn: fn, KeyName: keyName})
 		if err != nil {
 			return err
@@ -587,7 +595,7 @@ func runEncTypes(c *cctx, k int) {
 			var doc []byte
 			base := runtime.NumGoroutine()
 			c.call("enc.Encrypt", kv("algorithm", string(alg), "cipher", fmt.Sprint(cph), "plaintext_len", fmt.Sprint(ptLen), "reader", rs.String(), "key_name", keyName, "wrap_mode", fmt.Sprint(wrapMode)), func() error {
-				in := &scriptReader{data: patBytes(ptLen, 7), chunk: rs.chunk, zeros: rs.zeros, eofWith: rs.eofWith, failAt: rs.failAt, failErr: errInjected}
+				in := &scriptReader{data: patBytes(ptLen, 7), chunk: rs.chunk, zeros: rs.zeros, eofWith: rs.eofWith, failAt: rs.failAt, failErr: errInjected, first: rs.first}
 				out, err := v1.Encrypt(in, v1.EncryptOptions{Algorithm: alg, Cipher: cph, KeyName: keyName, OmitKeyName: rng.Chance(1, 5), DecryptionKeyName: rng.PickStr("", "dk"),
 					WrapKeyFn: func(k []byte, a, n string, nonce []byte) ([]byte, []byte, error) {
 						fileKey = clone(k)
